@@ -670,3 +670,113 @@ Proof.
   destruct (c_set_existing c n (wrap v)) as [c'|] eqn:E; [|exact Hfresh].
   apply (c_set_existing_lookup c n (wrap v) c' E).
 Qed.
+
+(* ------------------------------------------------------------------ dyadic adverbs: exact argument order *)
+Lemma pairs_exact : forall fl n c l ps st,
+  args_positional fl = true -> In l two_sigs -> sig_of c l ->
+  c_lookup (scx st) n = Some (EPy c) -> never_raises c ->
+  Forall (fun p => sval (scx st) (fst p) /\ sval (scx st) (snd p)) ps ->
+  pairs_loop fl st n ps =
+    (mkState (scx st) (log st ++ map (fun p => (pid c, [fst p; snd p])) ps),
+     Some (map (fun p => VPyRes (pid c) [fst p; snd p]) ps)).
+Proof.
+  intros fl n c l ps. induction ps as [|[x y] ps IH]; intros st Hf Hin Hs Hn Hnr Hsv; cbn [pairs_loop map].
+  - rewrite app_nil_r. destruct st; reflexivity.
+  - destruct (two_in_all l Hin) as [Hall Hlen]. inversion Hsv as [|? ? [Hx Hy] Hsv']; subst. cbn [fst snd] in *.
+    assert (Hst : stable (scx st) [x; y]) by (apply stable_of_sval; repeat constructor; assumption).
+    rewrite (apply_exact fl st n c l [x; y] Hf Hall Hs (eq_sym Hlen) Hn Hst (Hnr _)). unfold applied.
+    rewrite (IH (mkState (scx st) (log st ++ [(pid c, [x; y])])) Hf Hin Hs Hn Hnr Hsv'). cbn.
+    rewrite <- app_assoc. reflexivity.
+Qed.
+
+Fixpoint scan_vals (p : Z) (acc : val) (vs : list val) : list val :=
+  match vs with
+  | [] => []
+  | v :: r => VPyRes p [acc; v] :: scan_vals p (VPyRes p [acc; v]) r
+  end.
+
+Lemma scan_exact : forall fl n c l vs acc st,
+  args_positional fl = true -> In l two_sigs -> sig_of c l ->
+  c_lookup (scx st) n = Some (EPy c) -> never_raises c -> sval (scx st) acc -> Forall (sval (scx st)) vs ->
+  scan_loop fl st n acc vs =
+    (mkState (scx st) (log st ++ over_log (pid c) acc vs), Some (scan_vals (pid c) acc vs)).
+Proof.
+  intros fl n c l vs. induction vs as [|v vs IH]; intros acc st Hf Hin Hs Hn Hnr Ha Hsv; cbn [scan_loop over_log scan_vals].
+  - rewrite app_nil_r. destruct st; reflexivity.
+  - destruct (two_in_all l Hin) as [Hall Hlen]. inversion Hsv as [|? ? Hv Hsv']; subst.
+    assert (Hst : stable (scx st) [acc; v]) by (apply stable_of_sval; repeat constructor; assumption).
+    rewrite (apply_exact fl st n c l [acc; v] Hf Hall Hs (eq_sym Hlen) Hn Hst (Hnr _)). unfold applied.
+    rewrite (IH (VPyRes (pid c) [acc; v]) (mkState (scx st) (log st ++ [(pid c, [acc; v])])) Hf Hin Hs Hn Hnr eq_refl Hsv'). cbn.
+    rewrite <- app_assoc. reflexivity.
+Qed.
+
+(* the definitional expansion of each dyadic adverb: which applications, in which order, with which arguments *)
+Definition adverb_calls (f : form) : option (list (val * val)) :=
+  match f with
+  | FEachLeft a (VList bs) => Some (map (fun x => (a, x)) bs)
+  | FEachRight a (VList bs) => Some (map (fun x => (x, a)) bs)
+  | FEachPair (x :: y :: r) => Some (combine (x :: y :: r) (y :: r))
+  | FEach2 xs ys => Some (combine xs ys)
+  | _ => None
+  end.
+
+Lemma each2_pairs : forall fl st n xs ys, each2_loop fl st n xs ys = pairs_loop fl st n (combine xs ys).
+Proof.
+  intros fl st n xs. revert st. induction xs as [|x xs IH]; intros st ys; destruct ys as [|y ys]; cbn; try reflexivity.
+  destruct (apply_name fl st n [x; y]) as [st1 r]. destruct r; try reflexivity. rewrite IH. reflexivity.
+Qed.
+
+Lemma adverb_pairs_exact : forall fl n c l f ps st,
+  args_positional fl = true -> In l two_sigs -> sig_of c l ->
+  c_lookup (scx st) n = Some (EPy c) -> never_raises c ->
+  adverb_calls f = Some ps ->
+  Forall (fun p => sval (scx st) (fst p) /\ sval (scx st) (snd p)) ps ->
+  run_form fl st n f =
+    (mkState (scx st) (log st ++ map (fun p => (pid c, [fst p; snd p])) ps),
+     RVal (VList (map (fun p => VPyRes (pid c) [fst p; snd p]) ps))).
+Proof.
+  intros fl n c l f ps st Hf Hin Hs Hn Hnr Ha Hsv.
+  destruct f; try discriminate; cbn [adverb_calls] in Ha.
+  - inversion Ha; subst. cbn [run_form]. rewrite each2_pairs, (pairs_exact fl n c l _ st Hf Hin Hs Hn Hnr Hsv). reflexivity.
+  - destruct b; try discriminate. inversion Ha; subst. cbn [run_form]. rewrite (pairs_exact fl n c l _ st Hf Hin Hs Hn Hnr Hsv). reflexivity.
+  - destruct b; try discriminate. inversion Ha; subst. cbn [run_form]. rewrite (pairs_exact fl n c l _ st Hf Hin Hs Hn Hnr Hsv). reflexivity.
+  - destruct vs as [|x [|y r]]; try discriminate. injection Ha as Hps. subst ps. cbn [run_form].
+    pose proof (pairs_exact fl n c l (combine (x :: y :: r) (y :: r)) st Hf Hin Hs Hn Hnr Hsv) as Hp.
+    cbn [combine] in Hp |- *. rewrite Hp. reflexivity.
+Qed.
+
+(* atom right operands: a n:\b = n(a;b), a n:/b = n(b;a) (the order Each-Right must keep), a n/b = n(a;b) *)
+Lemma adverb_atom_exact : forall fl n c l a b st,
+  args_positional fl = true -> In l two_sigs -> sig_of c l ->
+  c_lookup (scx st) n = Some (EPy c) -> never_raises c ->
+  (forall bs, b <> VList bs) -> sval (scx st) a -> sval (scx st) b ->
+  run_form fl st n (FEachLeft a b) = applied st c [a; b] /\
+  run_form fl st n (FEachRight a b) = applied st c [b; a] /\
+  run_form fl st n (FOverN a b) = applied st c [a; b].
+Proof.
+  intros fl n c l a b st Hf Hin Hs Hn Hnr Hb Ha Hbv. destruct (two_in_all l Hin) as [Hall Hlen].
+  assert (H1 : apply_name fl st n [a; b] = applied st c [a; b]).
+  { apply (apply_exact fl st n c l [a; b] Hf Hall Hs (eq_sym Hlen) Hn); [apply stable_of_sval; repeat constructor; assumption | apply Hnr]. }
+  assert (H2 : apply_name fl st n [b; a] = applied st c [b; a]).
+  { apply (apply_exact fl st n c l [b; a] Hf Hall Hs (eq_sym Hlen) Hn); [apply stable_of_sval; repeat constructor; assumption | apply Hnr]. }
+  cbn [run_form]. destruct b; try (repeat split; assumption). exfalso. apply (Hb l0). reflexivity.
+Qed.
+
+(* folds: a n/bs from a; n\vs and a n\bs with all intermediate results *)
+Lemma adverb_fold_exact : forall fl n c l a v vs st,
+  args_positional fl = true -> In l two_sigs -> sig_of c l ->
+  c_lookup (scx st) n = Some (EPy c) -> never_raises c ->
+  sval (scx st) a -> Forall (sval (scx st)) (v :: vs) ->
+  run_form fl st n (FOverN a (VList (v :: vs))) =
+    (mkState (scx st) (log st ++ over_log (pid c) a (v :: vs)), RVal (fold_left (fun x y => VPyRes (pid c) [x; y]) (v :: vs) a)) /\
+  run_form fl st n (FScan (v :: vs)) =
+    (mkState (scx st) (log st ++ over_log (pid c) v vs), RVal (VList (v :: scan_vals (pid c) v vs))) /\
+  run_form fl st n (FScanN a (VList (v :: vs))) =
+    (mkState (scx st) (log st ++ over_log (pid c) a (v :: vs)), RVal (VList (a :: scan_vals (pid c) a (v :: vs)))).
+Proof.
+  intros fl n c l a v vs st Hf Hin Hs Hn Hnr Ha Hsv. inversion Hsv as [|? ? Hv Hsv']; subst.
+  cbn [run_form]. repeat split.
+  - rewrite (over_exact fl n c l (v :: vs) a st Hf Hin Hs Hn Hnr Ha Hsv). reflexivity.
+  - rewrite (scan_exact fl n c l vs v st Hf Hin Hs Hn Hnr Hv Hsv'). reflexivity.
+  - rewrite (scan_exact fl n c l (v :: vs) a st Hf Hin Hs Hn Hnr Ha Hsv). reflexivity.
+Qed.
